@@ -7,6 +7,8 @@
     vk <hostKeyType> <P> <sig>               → _verify_key:            ok | ssh | keyerror | other
     kex <disabled> <serverList> <P> <sig>    → negotiation + _verify_key: `<negotiated|none> <status>`
     auth <disabled> <algorithm> <P> <cb 0|1> <sig|none>  → disconnect | pkok | failure | success
+    authseq <disabled> <cb> <parse> <ident> (<algorithm> <flags> <sig|none>)*  → outcomes of the requests of one
+             connection, `+`-joined (stops after disconnect / success)
   <P> = <parse: ok|ssh|other> <ident> <r1><r2><r4><r0>   (key parsing outcome, the ECDSA key's curve
         identifier, and the library's verdict under SHA-1 / SHA-256 / SHA-512 / the key type's own hash);
         the class of the parsed key is the class `_key_info` maps the name to.
@@ -87,6 +89,26 @@ def step (line : String) : String :=
         else match authPublickey P (filterAlgos defaultKeys d) (fun _ => cb == "1") alg [2] sg [1] with
           | .disconnect => "disconnect" | .pkOk => "pkok" | .failure => "failure" | .success => "success"
       | _, _ => "bad-op"
+    | _, _, _ => "bad-op"
+  | "authseq" :: d :: cb :: parse :: ident :: rest =>
+    let rec groups : List String → Option (List (String × String × String))
+      | [] => some []
+      | a :: f :: sg :: r => (groups r).map fun g => (a, f, sg) :: g
+      | _ => none
+    match parseList d, ofHex? ident, groups rest with
+    | some d, some ident, some gs =>
+      if cb != "0" && cb != "1" then "bad-op"
+      else
+        let reqs := gs.mapM fun (a, f, sg) =>
+          let sg? : Option (Option Bytes) := if sg == "none" then some none else (ofHex? sg).map some
+          match ofHex? a, mkPrims parse ident f, sg? with
+          | some a, some P, some sg => some ({ P := P, algorithm := a, keyblob := [2], sig := sg, blob := [1] } : Req)
+          | _, _, _ => none
+        match reqs with
+        | some reqs =>
+          "+".intercalate ((authSession (filterAlgos defaultKeys d) (fun _ => cb == "1") reqs).map fun
+            | .disconnect => "disconnect" | .pkOk => "pkok" | .failure => "failure" | .success => "success")
+        | none => "bad-op"
     | _, _, _ => "bad-op"
   | _ => "bad-op"
 
